@@ -420,6 +420,36 @@ def option_levels(et: int, es: int, st_: int, ss: int, shape: int) -> bool:
     return H.done(census_ok(res, t2l, s2l) and match(res, expected(spec), t2l, s2l))
 
 
+def run_snapshot(et, es, mt, ms, value):
+    """the host keeps and later changes the dict it passed to factory.create(options=...): the engine works with the
+    options it was created with"""
+    with H.NoTracing():
+        d = level_opts(et, es)
+        eng = yq.FACTORY.create(options=d)
+        d.clear()
+        d.update(level_opts(mt, ms))
+    c = ROOT.create_child_context()
+    c['v'] = value
+    return eng('$v').evaluate(context=c)
+
+
+def option_snapshot(et: int, es: int, mt: int, ms: int, shape: int) -> bool:
+    """
+    pre: 0 <= et < 3 and 0 <= es < 3 and 0 <= mt < 3 and mt == ms and 0 <= shape < 2
+    pre: H.fresh(et, es, mt, ms, shape)
+    post: _
+    """
+    et, es, mt, ms = TRI[et][0], TRI[es][0], TRI[mt][0], TRI[ms][0]
+    outer, inner = pick(LEVEL_VALUES, shape)
+    spec = shape_spec(outer, inner, 1, 10, 'v')
+    t2l, s2l = effective(None, et, True), effective(None, es, False)
+    try:
+        res = run_snapshot(et, es, mt, ms, build(spec))
+    except Exception:
+        return H.done(False)
+    return H.done(census_ok(res, t2l, s2l) and match(res, expected(spec), t2l, s2l))
+
+
 OUTERS = [k for k in OUTER_KINDS if k != 'range']
 
 
@@ -704,6 +734,9 @@ def conditions(tier, seed):
         add('option_levels[%s]' % what, 'option_levels', 'conversion options absent/on/off (symbolic) at engine creation '
             'and again per statement through %s: the later level wins, defaults tuples->lists on, sets->lists off; '
             '%d value shapes' % (what, 2 if q else 4), 300 if q else 600, how=how, nshapes=2 if q else 4)
+    add('option_snapshot', 'option_snapshot', 'the dict given to factory.create(options=...) is changed by the host after the '
+        'engine was created (each conversion option absent/on/off before; cleared, all on or all off after; symbolic): finalisation follows the '
+        'creation-time values', 300 if q else 600)
     add('roundtrip_json', 'roundtrip_json', 'six JSON document skeletons with symbolic int/str(len<=3)/float/bool leaves, '
         'library-default engine, both entry points', 120 if q else 400)
     for key in sorted(PROBE_SHAPES):
@@ -799,6 +832,19 @@ def replay(cond, args):
         outer, ik = PROBE_SHAPES[p['probe_key']][vals['i']]
         spec = shape_spec(outer, ik, 1, 0, '')
         node = expected(spec)
+    elif f == 'option_snapshot':
+        et, es, mt, ms = [TRI[vals[k]][0] for k in ('et', 'es', 'mt', 'ms')]
+        outer, inner = LEVEL_VALUES[vals['shape']]
+        spec = shape_spec(outer, inner, 1, 10, 'v')
+        t2l, s2l = effective(None, et, True), effective(None, es, False)
+        try:
+            got = repr(run_snapshot(et, es, mt, ms, build(spec)))
+        except Exception as e:
+            got = 'raises %r' % e
+        return {'reproduced': True, 'key': 'C10/option_snapshot',
+                'what': 'engine created with options dict %r, which the host then changed to %r; value %s: result %s; the '
+                        'engine was created with convertTuplesToLists=%s convertSetsToLists=%s, expected %r'
+                        % (level_opts(et, es), level_opts(mt, ms), spec_text(spec), got, t2l, s2l, expected(spec))}
     elif f == 'option_levels':
         et, es, st_, ss = [TRI[vals[k]][0] for k in ('et', 'es', 'st_', 'ss')]
         outer, inner = LEVEL_VALUES[vals['shape']]
